@@ -168,7 +168,13 @@ TypeOK ==
 
 \* ---------------------------------------------------------------- generator: the crash classes
 \* one class per (complete units, zone in flight, torn?, tail mode, closing stage), with what the
-\* statement requires of playback for it
+\* statement requires of playback for it. For every part k (first, middle, last) and every tail mode
+\* the classes are: between writes (z = 0) | inside the 8-byte moof header (moof.h torn) | moof header
+\* complete, body missing (moof.b, not torn) | inside the moof body (moof.b torn) | at the end of the
+\* moof (mdat.h, not torn) | inside the mdat header (mdat.h torn) | mdat header complete (mdat.b, not
+\* torn) | inside the payload (mdat.b torn); the same for the header unit with ftyp / moov. The
+\* harness must reach every class in every tier (it fails otherwise); quick takes the edges and the
+\* middle of each class plus a stride, thorough every byte offset.
 ClassOf == [k |-> cls.k, z |-> cls.z, zone |-> IF cls.z = 0 THEN "-" ELSE ZoneName(cls.k, cls.z),
             torn |-> cls.torn, mode |-> cls.mode, stage |-> cls.stage, patch |-> patch,
             hdr |-> HeaderOK(disk), parts |-> Cardinality(Served(disk))]
